@@ -1,0 +1,55 @@
+#ifndef PARMCB_DETAIL_VERIF_HOOKS_HPP_
+#define PARMCB_DETAIL_VERIF_HOOKS_HPP_
+
+// Observation points for the verification harness. Only included when PARMCB_VERIF is defined.
+
+#include <cstddef>
+#include <functional>
+#include <vector>
+
+namespace parmcb {
+
+    namespace verif {
+
+        // one odd-cycle search of a phase of the signed-graph algorithm
+        struct SearchEvent {
+            std::size_t phase;
+            bool hidden_branch;              // hidden-edge heuristic (true) or all-vertices search (false)
+            std::size_t source;              // forest index of the signed edge / vertex index
+            std::vector<std::size_t> hidden; // forest indices of the hidden edges, in set order
+            bool use_limit;
+            double limit;
+            bool found;
+            double weight;                   // weight reported by the search (before the signed edge is added)
+        };
+
+        inline std::function<void(const SearchEvent&)>& search_hook() {
+            static std::function<void(const SearchEvent&)> hook;
+            return hook;
+        }
+
+        template<class EdgeSet, class ForestIndex>
+        void report_search(std::size_t phase, bool hidden_branch, std::size_t source, const EdgeSet &hidden,
+                const ForestIndex &forest_index, bool use_limit, double limit, bool found, double weight) {
+            if (!search_hook()) {
+                return;
+            }
+            SearchEvent ev;
+            ev.phase = phase;
+            ev.hidden_branch = hidden_branch;
+            ev.source = source;
+            for (const auto &e : hidden) {
+                ev.hidden.push_back(forest_index(e));
+            }
+            ev.use_limit = use_limit;
+            ev.limit = limit;
+            ev.found = found;
+            ev.weight = weight;
+            search_hook()(ev);
+        }
+
+    } // verif
+
+} // parmcb
+
+#endif
